@@ -521,6 +521,8 @@ func registerIntrinsics(p *Program) {
 	registerRegex(p)
 	registerTemplate(p)
 	registerUnicode(p)
+	registerShared(p)
+	registerDefaultsBoundary(p)
 	registerGoStubs(p)
 }
 
